@@ -388,7 +388,7 @@ func TestVerifC10Store(t *testing.T) {
 	defer mdb.Close()
 	mem := store.NewMemoryFactory()
 
-	nCases := r.N(1400, 16000)
+	nCases := r.N(1000, 14000)
 	for i := 0; i < nCases; i++ {
 		if r.Skip(i) {
 			continue
